@@ -454,7 +454,7 @@ Qed.
 
 Theorem minv_b_sound : forall k nl cap s, minv_b k nl cap s = true -> MInv k nl cap s.
 Proof.
-  intros k nl cap s Hb. unfold minv_b in Hb. rewrite !andb_true_iff in Hb.
+  intros k nl cap s Hb. unfold minv_b in Hb. cbv zeta in Hb. rewrite !andb_true_iff in Hb.
   destruct Hb as [[[[[[[H1 H2] H3] H4] H5] H6] H7] H8].
   constructor.
   - apply cinv_b_spec. exact H1.
